@@ -345,10 +345,13 @@ fn do_map_update(
     f: KValue,
     vm: &mut KotoVm,
 ) -> Result<KValue> {
-    if !map.data().contains_key(&key) {
-        map.data_mut().insert(key.clone(), default);
-    }
-    let value = map.get(&key).unwrap();
+    // The default is inserted and the value read with a single borrow,
+    // otherwise the entry could be removed in between by another thread.
+    let value = map
+        .data_mut()
+        .entry(key.clone())
+        .or_insert(default)
+        .clone();
     match vm.call_function(f, value) {
         Ok(new_value) => {
             map.data_mut().insert(key, new_value.clone());
